@@ -182,6 +182,11 @@ def toml_text(pc, rng, noise=True):
     rng.shuffle(tabs)
     if noise and rng.random() < 0.2:
         lines.append('# generated for the C20 check')
+    if noise and rng.random() < 0.25:
+        # a stray top-level target_os key in the FILE: the target list comes from the command line only (theorem
+        # C20_target_os_from_options_only), so it must change nothing (seeded C13_g: the key deserialised and used when
+        # --target-os is absent: cfg-guarded items silently dropped)
+        lines.append('target_os = ["linux", "ios"]')
     for t in tabs:
         tab = pc[t]
         scal = [(k, v) for k, v in tab.items() if not isinstance(v, dict)]
@@ -826,9 +831,10 @@ def run(chk):
         chk.count('g_' + (obs[0] if obs[0] == 'ok' else str(obs[1])))
         if obs != exp:
             if obs[0] == exp[0] == 'ok':
-                diff = {f'{t}.{k}': (obs[1].get(t, {}).get(k, '<absent>'), exp[1].get(t, {}).get(k, '<absent>'))
-                        for t in sorted(set(obs[1]) | set(exp[1])) for k in sorted(set(obs[1].get(t, {})) | set(exp[1].get(t, {})))
-                        if obs[1].get(t, {}).get(k, '<absent>') != exp[1].get(t, {}).get(k, '<absent>')}
+                tab = lambda x, t: x.get(t) if isinstance(x.get(t), dict) else ({} if t not in x else {'<value>': x.get(t)})     # a top-level key that is no table
+                diff = {f'{t}.{k}': (tab(obs[1], t).get(k, '<absent>'), tab(exp[1], t).get(k, '<absent>'))
+                        for t in sorted(set(obs[1]) | set(exp[1])) for k in sorted(set(tab(obs[1], t)) | set(tab(exp[1], t)))
+                        if tab(obs[1], t).get(k, '<absent>') != tab(exp[1], t).get(k, '<absent>')}
                 what = f'the TOML written by -g is not exactly the overridden default configuration: (written, expected) differ at {diff}'
             else:
                 what = f'-g: observed {obs[0]} {obs[1] if obs[0] != "ok" else ""}, expected {exp[0]} {exp[1] if exp[0] != "ok" else ""}'
